@@ -47,6 +47,8 @@ pub struct Script {
     pub call_var: u64,
     /// Run the call script only during the first N calls of a thread (0 = always): lazy initialisation / warm-up.
     pub call_only_first: u64,
+    /// Bit mask of thread indices (0 = caller, N = divan-N) whose calls run the script (0 = every thread).
+    pub call_thread_mask: u64,
     pub call_free: bool,
     /// Pre-filled stash (filled by the main thread before the run): `stash_n` blocks of `stash_size`
     /// bytes; every call (`stash_where` 0), generation (1) or input drop (2) frees one block and
@@ -91,6 +93,7 @@ impl Script {
             call_thr_scale: c.u64("cathr", 0) != 0,
             call_var: c.u64("cavar", 0),
             call_only_first: c.u64("caonly", 0),
+            call_thread_mask: c.u64("camask", 0),
             call_free: c.u64("cafree", 1) != 0,
             stash_n: c.u64("stash", 0),
             stash_size: c.u64("stashsz", 64),
@@ -325,6 +328,9 @@ fn churn(n: u64, size: u64) {
 fn call_allocs(ord: u64) {
     let s = script();
     if s.call_ops.is_empty() || (s.call_only_first > 0 && ord >= s.call_only_first) {
+        return;
+    }
+    if s.call_thread_mask != 0 && (s.call_thread_mask >> (evlog::kidx() as u64).min(63)) & 1 == 0 {
         return;
     }
     let mut scale = if s.call_thr_scale { evlog::kidx() as u64 + 1 } else { 1 };
